@@ -39,7 +39,8 @@ theorem scanCredit_cases (limit : Nat) (addrs : List Addr) (sc : Scan) (e : Cred
     (sc.stopped = false ∧ sc.failed = false ∧ addrs.contains e.2.sh = true ∧
       ∃ d, spender e.2 = .ok d ∧
         scanCredit limit addrs sc e = { sc with s := dropDebit (deleteCredit sc.s e.1) d, count := sc.count + 1,
-                                                heightOf := AMap.put sc.heightOf e.1.tx e.1.blk.height }) := by
+                                                heightOf := AMap.put (noteSpender sc.heightOf d) e.1.tx e.1.blk.height,
+                                                spenders := sc.spenders ++ (AMap.get sc.s.pendIns (e.1.tx, e.1.idx)).getD [] }) := by
   unfold scanCredit
   by_cases h1 : (sc.stopped || sc.failed) = true
   · rw [if_pos h1]; exact Or.inl rfl
